@@ -238,9 +238,18 @@ func genInput(r *core.Rng, hostile bool) []inPoint {
 	seen := map[string]bool{}
 	twoNames := r.Chance(0.4)
 	// hostile: seed the collision pairs deliberately in half of the runs
-	if hostile && r.Chance(0.5) {
-		gs = append(gs, grp{name: "m", tags: map[string]string{"t1": "a,t2=b", "t2": "c"}}, grp{name: "m", tags: map[string]string{"t1": "a", "t2": "b,t2=c"}})
-		seen["m|a,t2=b|c"], seen["m|a|b,t2=c"] = true, true
+	if hostile && r.Chance(0.6) {
+		// each pair serialises identically under one incomplete escaping scheme: none at all;
+		// ',' escaped but '\\' not; '\\' doubled but ',' not
+		pairs := [][4]string{
+			{"a,t2=b", "c", "a", "b,t2=c"},
+			{`x\`, "1,t2=2", `x,t2=1\`, "2"},
+			{`x\,t2=1`, "2", `x\`, "1,t2=2"},
+			{`p\\,t2=q`, "r", `p\\`, "q,t2=r"},
+		}
+		pr := pairs[r.Intn(len(pairs))]
+		gs = append(gs, grp{name: "m", tags: map[string]string{"t1": pr[0], "t2": pr[1]}}, grp{name: "m", tags: map[string]string{"t1": pr[2], "t2": pr[3]}})
+		seen["m|"+pr[0]+"|"+pr[1]], seen["m|"+pr[2]+"|"+pr[3]] = true, true
 	}
 	for len(gs) < ng {
 		g := grp{name: "m", tags: map[string]string{"t1": r.Pick(pool)}}
